@@ -912,8 +912,67 @@ func (e *c16Env) pickVal() string {
 	return c16Vals[rng.Intn(len(c16Vals))]
 }
 
+// requestThenTouch: the owner raises a request on one of its records and — at the SAME block time or a later one —
+// edits the record to a new value, re-registers the SAME value (only the record's date moves: the request goes stale
+// without being cancelled) or deletes it; then the verifier handles whatever is left. Covers "changing a record cancels
+// pending requests" for edits inside the block that raised the request, and the stale-request path of the handler.
+func (e *c16Env) requestThenTouch(nLive int) {
+	rng := e.r.Rng
+	a := rng.Intn(nLive)
+	key := e.pickKey()
+	if !e.register(a, [][2]string{{key, e.pickVal()}}) {
+		return
+	}
+	s := e.snap()
+	var rid uint64
+	var val string
+	for _, rc := range s.recs {
+		if rc.addr == a && strings.EqualFold(rc.key, key) && rc.id > rid {
+			rid, val = rc.id, rc.val
+		}
+	}
+	if rid == 0 {
+		return
+	}
+	v := rng.Intn(nLive)
+	// a second open request by somebody else keeps the escrow account funded beyond this request's tip
+	if b := rng.Intn(nLive); b != a && rng.Intn(2) == 0 {
+		for _, id := range s.recOrder {
+			if rc := s.recs[id]; rc.addr == b {
+				e.request(b, v, []uint64{rc.id}, 0, sdkmath.NewIntFromUint64(s.minTip).AddRaw(300))
+				break
+			}
+		}
+	}
+	if !e.request(a, v, []uint64{rid}, 0, sdkmath.NewIntFromUint64(s.minTip).AddRaw(int64(rng.Intn(200)))) {
+		return
+	}
+	if rng.Intn(2) == 0 {
+		e.tick(int64(1 + rng.Intn(4)))
+	}
+	switch rng.Intn(4) {
+	case 0, 1:
+		e.register(a, [][2]string{{key, val + "x"}})
+	case 2:
+		e.register(a, [][2]string{{key, val}})
+	case 3:
+		e.delete(a, []string{key})
+	}
+	if rng.Intn(2) == 0 {
+		e.tick(int64(1 + rng.Intn(4)))
+	}
+	s2 := e.snap()
+	if len(s2.reqOrder) > 0 && v < len(e.addrs) {
+		e.handle(v, s2.lastReq, rng.Intn(3) != 0)
+	}
+}
+
 func (e *c16Env) randomOp(nLive int) {
 	rng := e.r.Rng
+	if rng.Intn(25) == 0 {
+		e.requestThenTouch(nLive)
+		return
+	}
 	s := e.snap()
 	a := rng.Intn(nLive)
 	switch x := rng.Intn(100); {
